@@ -28,6 +28,7 @@ fn main() {
         "C07" => main_for::<props::c07::P>(rest),
         "C08" => main_for::<props::c08::P>(rest),
         "C13" => main_for::<props::c13::P>(rest),
+        "C14" => main_for::<props::c14::P>(rest),
         "C16" => main_for::<props::c16::P>(rest),
         "C17" => main_for::<props::c17::P>(rest),
         "C20" => main_for::<props::c20::P>(rest),
